@@ -362,6 +362,7 @@ func FlagGrammar(s string) bool {
 var (
 	_ = strconv.Itoa
 	_ strings.Builder
+	_ = utf8.ValidString
 )
 
 // ---------------------------------------------------------------------------
